@@ -194,9 +194,10 @@ class Materialised:
         if defect == 'rec-dest-without-protocol':
             base = ProcessorBase
         body = dict(name=f'{self.tag}_{name}'.lower(), process=fn, __module__='bounded_builder')
-        if self.modes.get(name) == 'process':
+        if self.modes.get(name) in ('process', 'inline', 'inline+process'):
             from ml_pipeline_engine.node import NodeTag
-            body['tags'] = (NodeTag.process,)
+            body['tags'] = {'process': (NodeTag.process,), 'inline': (NodeTag.non_async,),
+                            'inline+process': (NodeTag.process, NodeTag.non_async)}[self.modes[name]]
         if defect == 'nobase':
             return type(name, (), body)
         if defect == 'noprocess':
@@ -411,7 +412,10 @@ def main():
     for tname, spec, inp, out in templates():
         seen_nodes, *_ = reachable(spec, inp, out)
         names = sorted(seen_nodes)
-        variants = [{}] + [{n: m} for n in names for m in ('thread', 'process')] + [{names[0]: 'thread', names[-1]: 'process'}]
+        # 'inline' = a sync node tagged non_async: run_node executes it in the loop thread, it uses no pool (also when it carries
+        # the process tag as well: non_async is looked at first)
+        variants = [{}] + [{n: m} for n in names for m in ('thread', 'process', 'inline', 'inline+process')] \
+            + [{names[0]: 'thread', names[-1]: 'process'}, {n: 'inline' for n in names}]
         for modes in variants:
             tag = f't{next(counter)}'
             n_cases += 1
@@ -428,7 +432,7 @@ def main():
                 failures.append(dict(property='C17', template=tname, case=f'sync nodes {modes}',
                                      observed=f'is_thread_pool_needed={dag.is_thread_pool_needed} is_process_pool_needed={dag.is_process_pool_needed}',
                                      expected=f'is_thread_pool_needed={want_thr} is_process_pool_needed={want_proc}'))
-    for mode in (None, 'thread', 'process'):
+    for mode in (None, 'thread', 'process', 'inline'):
         tag = f't{next(counter)}'
         n_cases += 1
         m = Materialised(P(Only=([('x', ('raw',))],)), tag, modes={'Only': mode} if mode else {})
@@ -441,7 +445,7 @@ def main():
     failures += [dict(f_, property='C09') for f_ in failures if f_['property'] == 'C15' and 'switch' in str(f_['observed']).lower()]
     result = dict(harness='bounded/builder.py', bound='17 templates (<= 9 node classes, every mark kind, shared and nested '
                   'constructs) x parameter orders (<= 24 each) x single-defect mutations (9 kinds, every applicable position); pool flags: every '
-                  'template x every node as a sync / process-tagged node, and single-node builds',
+                  'template x every node as a thread / process / inline (non_async) / inline+process node, all nodes inline, and single-node builds',
                   cases=n_cases, failures=failures)
     if '--json' in sys.argv:
         with open(sys.argv[sys.argv.index('--json') + 1], 'w') as f:
